@@ -193,8 +193,15 @@ class ReadOff:
 def read_affine(ctx, sigtail, case, dist, N, transform=None, tol=1e-9):
     """Returns (mean_obs (dim,), L (dim, m_total)) or None after having reported a mismatch.
     tol: accuracy of the linear solves behind the sampler (relative to the magnitude of the output)."""
+    from cuqiverif.script_rng import global_state_digest
     ro = ReadOff(dist, N, transform)
+    g0 = global_state_digest()
     s0, reqs = ro.call(None)
+    if not reqs and global_state_digest() != g0:
+        # the generator that was passed in was never asked, and the global stream moved instead
+        ctx.mismatch("rng_ignored/" + sigtail, case, "sample(N, rng=generator) did not draw from the given generator and "
+                     "consumed numpy's global random state instead", "requests to the given generator", "none; global state changed")
+        return None
     if not check_return(ctx, "return_shape/" + sigtail, case, dist, s0, N):
         return None
     S0 = ro.matrix(s0)
